@@ -1,15 +1,23 @@
 import MidnightZK.Model.C03.Binding
+import MidnightZK.Proofs.C03.Stream
+import MidnightZK.Proofs.C03.Points
+import MidnightZK.Proofs.C03.InstanceEval
 /-!
 # C03 — a proof is accepted only for the exact statement and bytes it was made for
 Structural binding facts of the verifier schedule; collision resistance of the transcript hash
 is assumed, not proved.
+
+Sections: (1) instance absorption, schedule shape, proof length, scalar decoding (first round);
+(2) what the two transcript hashes absorb, element by element, is injective in the statement and the proof
+elements; parsing a proof is injective; (3) a plain instance column is also bound through its evaluation at `x`;
+(4) what enters `transcript_repr` of the verifying key; (5) generated constants.
 -/
 namespace MidnightZK.C03
 open MidnightZK MidnightZK.C01
 
 private theorem parseStream_instStream : ∀ (cols : List (List Nat)) (fuel : Nat),
     (instStream cols).length ≤ fuel → parseStream fuel (instStream cols) = some cols
-  | [], fuel, _ => by cases fuel <;> simp [instStream, parseStream]
+  | [], fuel, _ => by cases fuel <;> rfl
   | c :: t, 0, h => by simp [instStream] at h
   | c :: t, fuel + 1, h => by
     simp only [instStream, parseStream]
@@ -25,7 +33,7 @@ the columns: two different public-input assignments — a changed value, a permu
 dropped or appended element, a value moved between columns — are absorbed differently. -/
 theorem instances_injective (a b : List (List Nat)) (h : instStream a = instStream b) : a = b := by
   have ha := parseStream_instStream a (instStream a).length (Nat.le_refl _)
-  have hb := parseStream_instStream b (instStream a).length (by rw [h]; exact Nat.le_refl _)
+  have hb := parseStream_instStream b (instStream a).length (Nat.le_of_eq (congrArg List.length h.symm))
   rw [← h, ha] at hb
   exact Option.some.inj hb
 
@@ -123,5 +131,407 @@ theorem decode_rejects_noncanonical (a : List Nat) (h : rModulus ≤ leBytesToNa
 
 example : decodeScalar (natToLeBytes 32 rModulus) = none := by decide +kernel
 example : decodeScalar (natToLeBytes 32 (rModulus - 1)) = some (rModulus - 1) := by decide +kernel
+
+/-! ## (2) The absorbed streams -/
+
+/-- **`absorbed_stream_injective` (BLAKE2b transcript).** For a fixed schedule (fixed constraint-system shape and
+proving configuration, hence fixed element types and sizes at every position) the byte stream `update`d into the
+transcript BLAKE2b state — prefix `1` and the 32-byte / 48-byte encoding for every absorbed or read element, prefix
+`0` for every challenge — determines every value: two different tuples (vk representative, committed-instance
+commitments, instance lengths and values, proof elements) are absorbed as different streams. Values range over
+canonical scalars and points the decoder accepts (`GoodVal`). -/
+theorem absorbed_stream_injective (sh : Shape) (cfg : Cfg) (a b : List Val)
+    (ta : Typed (verifierSchedule sh cfg) a) (tb : Typed (verifierSchedule sh cfg) b)
+    (ga : ∀ v ∈ a, GoodVal v) (gb : ∀ v ∈ b, GoodVal v)
+    (h : blakeStream (verifierSchedule sh cfg) a = blakeStream (verifierSchedule sh cfg) b) : a = b := by
+  generalize verifierSchedule sh cfg = evs at ta tb h
+  exact blakeStream_inj_of GoodVal valBytes_inj_good evs a b ta tb ga gb h
+
+/-- The same for any schedule (the prover's, a sub-schedule, …): only the fixed sequence of event kinds and types
+matters. -/
+theorem absorbed_stream_injective_any (evs : List Ev) (a b : List Val) (ta : Typed evs a) (tb : Typed evs b)
+    (ga : ∀ v ∈ a, GoodVal v) (gb : ∀ v ∈ b, GoodVal v) (h : blakeStream evs a = blakeStream evs b) : a = b :=
+  blakeStream_inj_of GoodVal valBytes_inj_good evs a b ta tb ga gb h
+
+/-- **`absorbed_stream_injective` (Poseidon transcript).** The blocks of field elements the Poseidon sponge
+absorbs (queue followed by its length at every effective squeeze; the residual queue at the end) determine every
+value: scalars enter as themselves, points as the 2·7 limbs of `x − 1`, `y − 1` with the identity flag added to
+the first limb — injective on points with canonical coordinates. -/
+theorem absorbed_stream_injective_poseidon (sh : Shape) (cfg : Cfg) (a b : List Val)
+    (ta : Typed (verifierSchedule sh cfg) a) (tb : Typed (verifierSchedule sh cfg) b)
+    (ga : ∀ v ∈ a, GoodVal v) (gb : ∀ v ∈ b, GoodVal v)
+    (h : poseidonBlocks (verifierSchedule sh cfg) a [] 0 = poseidonBlocks (verifierSchedule sh cfg) b [] 0) :
+    a = b := by
+  generalize verifierSchedule sh cfg = evs at ta tb h
+  exact (poseidonBlocks_inj_of GoodVal valFields_inj_good evs a b [] [] 0 ta tb ga gb rfl h).2
+
+/-- Contrapositive reading used by the property: ANY changed value — a changed committed-instance commitment, a
+changed public input, a changed proof element — changes what is absorbed, under both hashes. -/
+theorem changed_value_changes_stream (sh : Shape) (cfg : Cfg) (a b : List Val)
+    (ta : Typed (verifierSchedule sh cfg) a) (tb : Typed (verifierSchedule sh cfg) b)
+    (ga : ∀ v ∈ a, GoodVal v) (gb : ∀ v ∈ b, GoodVal v) (hne : a ≠ b) :
+    blakeStream (verifierSchedule sh cfg) a ≠ blakeStream (verifierSchedule sh cfg) b ∧
+    poseidonBlocks (verifierSchedule sh cfg) a [] 0 ≠ poseidonBlocks (verifierSchedule sh cfg) b [] 0 :=
+  ⟨fun h => hne (absorbed_stream_injective sh cfg a b ta tb ga gb h),
+   fun h => hne (absorbed_stream_injective_poseidon sh cfg a b ta tb ga gb h)⟩
+
+/-- Non-vacuity: a typed list of good values for a tiny schedule, and two different ones with different streams. -/
+example : Typed [absorbF .vk, squeeze .x, elemF .randomEval] [.F 5, .F 7] ∧ GoodVal (.F 5) ∧
+    blakeStream [absorbF .vk, squeeze .x, elemF .randomEval] [.F 5, .F 7]
+      ≠ blakeStream [absorbF .vk, squeeze .x, elemF .randomEval] [.F 5, .F 8] := by
+  refine ⟨by simp [Typed, absorbF, squeeze, elemF, Val.ty], by simp [GoodVal, rModulus], by decide⟩
+
+/-- Scalars of a value list, in order. -/
+def scalarsOf : List Val → List Nat
+  | [] => []
+  | .F v :: t => v :: scalarsOf t
+  | .G _ :: t => scalarsOf t
+
+/-- Points of a value list, in order. -/
+def pointsOf : List Val → List Pt
+  | [] => []
+  | .F _ :: t => pointsOf t
+  | .G p :: t => p :: pointsOf t
+
+private theorem scalarsOf_append (a b : List Val) : scalarsOf (a ++ b) = scalarsOf a ++ scalarsOf b := by
+  induction a with
+  | nil => rfl
+  | cons v t ih => cases v <;> simp [scalarsOf, ih]
+
+private theorem pointsOf_append (a b : List Val) : pointsOf (a ++ b) = pointsOf a ++ pointsOf b := by
+  induction a with
+  | nil => rfl
+  | cons v t ih => cases v <;> simp [pointsOf, ih]
+
+private theorem scalarsOf_mapF (l : List Nat) : scalarsOf (l.map .F) = l := by
+  induction l with
+  | nil => rfl
+  | cons v t ih => simp [scalarsOf, ih]
+
+private theorem scalarsOf_mapG (l : List Pt) : scalarsOf (l.map .G) = [] := by
+  induction l with
+  | nil => rfl
+  | cons v t ih => simp [scalarsOf, ih]
+
+private theorem pointsOf_mapF (l : List Nat) : pointsOf (l.map .F) = [] := by
+  induction l with
+  | nil => rfl
+  | cons v t ih => simp [pointsOf, ih]
+
+private theorem pointsOf_mapG (l : List Pt) : pointsOf (l.map .G) = l := by
+  induction l with
+  | nil => rfl
+  | cons v t ih => simp [pointsOf, ih]
+
+private theorem instStream_append (a b : List (List Nat)) : instStream (a ++ b) = instStream a ++ instStream b := by
+  induction a with
+  | nil => rfl
+  | cons c t ih => simp [instStream, ih]
+
+private theorem scalars_blocks (coms : List (List Pt)) (cols : List (List (List Nat))) (ps : List Nat) :
+    scalarsOf (ps.flatMap fun p => (coms.getD p []).map .G ++ (instStream (cols.getD p [])).map .F)
+      = instStream (ps.flatMap fun p => cols.getD p []) := by
+  induction ps with
+  | nil => rfl
+  | cons p t ih =>
+    simp only [List.flatMap_cons, scalarsOf_append, scalarsOf_mapG, scalarsOf_mapF, ih, instStream_append,
+      List.nil_append]
+
+private theorem points_blocks (coms : List (List Pt)) (cols : List (List (List Nat))) (ps : List Nat) :
+    pointsOf (ps.flatMap fun p => (coms.getD p []).map .G ++ (instStream (cols.getD p [])).map .F)
+      = ps.flatMap fun p => coms.getD p [] := by
+  induction ps with
+  | nil => rfl
+  | cons p t ih =>
+    simp only [List.flatMap_cons, pointsOf_append, pointsOf_mapG, pointsOf_mapF, ih, List.append_nil]
+
+private theorem flatMap_getD_range (l : List (List α)) :
+    ((List.range l.length).flatMap fun p => l.getD p []) = l.flatten := by
+  induction l using List.reverseRecOn with
+  | nil => rfl
+  | append_singleton t x ih =>
+    rw [List.length_append, List.length_singleton, List.range_succ, List.flatMap_append, List.flatten_append]
+    congr 1
+    · rw [← ih]
+      apply List.flatMap_congr
+      intro p hp
+      have : p < t.length := List.mem_range.mp hp
+      simp [List.getD_eq_getElem?_getD, List.getElem?_append_left this]
+    · simp [List.getD_eq_getElem?_getD]
+
+private theorem flatten_inj_of_lengths : ∀ (a b : List (List α)), a.map List.length = b.map List.length →
+    a.flatten = b.flatten → a = b
+  | [], [], _, _ => rfl
+  | [], _ :: _, h, _ => by simp at h
+  | _ :: _, [], h, _ => by simp at h
+  | x :: s, y :: t, hl, h => by
+    simp only [List.map_cons, List.cons.injEq] at hl
+    simp only [List.flatten_cons] at h
+    have h2 := List.append_inj h hl.1
+    rw [h2.1, flatten_inj_of_lengths s t hl.2 h2.2]
+
+/-- **The statement is determined by what is absorbed for it.** For two statements of the same configuration
+(same number of proofs, same number of committed and of plain instance columns per proof — fixed by the verifying
+key), equal absorbed statement values mean equal vk representative, equal commitments and equal public inputs
+(lengths included: a dropped / appended element, or one moved between columns or between proofs, is seen). -/
+theorem statement_injective (s t : Stmt)
+    (_hnp : s.cols.length = t.cols.length) (hcl : s.coms.length = s.cols.length) (hcl' : t.coms.length = t.cols.length)
+    (hcols : s.cols.map List.length = t.cols.map List.length)
+    (hcoms : s.coms.map List.length = t.coms.map List.length)
+    (h : stmtVals s = stmtVals t) :
+    s.vkRepr = t.vkRepr ∧ s.coms = t.coms ∧ s.cols = t.cols := by
+  unfold stmtVals at h
+  have hs := congrArg scalarsOf h
+  have hp := congrArg pointsOf h
+  simp only [scalarsOf, pointsOf, scalars_blocks, points_blocks, List.cons.injEq] at hs hp
+  refine ⟨hs.1, ?_, ?_⟩
+  · have hf : s.coms.flatten = t.coms.flatten := by
+      rw [← flatMap_getD_range s.coms, ← flatMap_getD_range t.coms, hcl, hcl']; exact hp
+    exact flatten_inj_of_lengths _ _ hcoms hf
+  · have hf : s.cols.flatten = t.cols.flatten := by
+      rw [← flatMap_getD_range s.cols, ← flatMap_getD_range t.cols]; exact instances_injective _ _ hs.2
+    exact flatten_inj_of_lengths _ _ hcols hf
+
+/-! ## (2b) Parsing a proof -/
+
+/-- **`proof_parse_injective`.** Two byte strings that the verifier parses successfully (every element decodes,
+`assert_empty` finds no byte left) into the same element sequence are the same byte string — for ANY point decoder
+that is canonical (`CanonicalPointDecoder`: fixed size, no two accepted encodings of one point); scalars are
+handled by `decode_canonical`. No byte of an accepted proof is malleable at the parsing level. -/
+theorem proof_parse_injective {dec : List Nat → Option Pt} {ok : Pt → Prop}
+    (hd : CanonicalPointDecoder dec ok) (evs : List Ev) (a b : List Nat) (vs : List Val)
+    (hok : ∀ v ∈ vs, ValOk ok v)
+    (ha : parseProofWith dec evs a = some vs) (hb : parseProofWith dec evs b = some vs) : a = b := by
+  unfold parseProofWith at ha hb
+  split at ha
+  · next va hpa =>
+    split at hb
+    · next vb hpb =>
+      simp only [Option.some.injEq] at ha hb
+      subst ha hb
+      exact parseElemsWith_inj hd _ a b _ [] hok hpa hpb
+    · simp at hb
+  · simp at ha
+
+/-- The hypothesis structure of `proof_parse_injective` holds for the model of `G1Affine::from_compressed`
+(`G1Projective::from_bytes` under BLAKE2b, `G1Affine::from_bytes` under Poseidon — one decoder, checked against
+both readers by the `point` correspondence lines), by `C16.decode_canonical`. PARTIAL in one respect: points with
+`y = 0` are excluded (`NoOrder2`); none exists on the curve, which neither C16 nor this file proves. -/
+theorem proof_parse_injective_g1_partial (sh : Shape) (cfg : Cfg) (a b : List Nat) (vs : List Val)
+    (hok : ∀ v ∈ vs, ValOk NoOrder2 v)
+    (ha : parseProof (verifierSchedule sh cfg) a = some vs)
+    (hb : parseProof (verifierSchedule sh cfg) b = some vs) : a = b :=
+  proof_parse_injective g1Dec_canonical _ a b vs hok ha hb
+
+example : CanonicalPointDecoder g1Dec NoOrder2 := g1Dec_canonical
+
+private theorem sizes_totalLen : ∀ (evs : List Ev), ((elemTys evs).map elemSize).foldl (· + ·) 0 = totalLen evs
+  | [] => rfl
+  | e :: t => by
+    have hfold : ∀ (l : List Nat) (acc : Nat), l.foldl (· + ·) acc = acc + l.foldl (· + ·) 0 := by
+      intro l
+      induction l with
+      | nil => intro acc; simp
+      | cons x xs ihx => intro acc; simp only [List.foldl_cons]; rw [ihx (acc + x), ihx (0 + x)]; omega
+    unfold elemTys totalLen
+    by_cases hk : e.kind = .elem
+    · simp only [hk, if_true, List.map_cons, List.foldl_cons]
+      rw [hfold, sizes_totalLen t]; omega
+    · simp only [hk, if_false]
+      rw [sizes_totalLen t]; omega
+
+/-- **A parsed proof has exactly the model's length** (at the level of the byte parser, with the real element
+decoders): whatever the point decoder, a byte string accepted by `parseProofWith` for the verifier schedule has
+`proofLen sh cfg` bytes and yields one value per proof element. -/
+theorem parsed_length {dec : List Nat → Option Pt} (sh : Shape) (cfg : Cfg) (bs : List Nat) (vs : List Val)
+    (h : parseProofWith dec (verifierSchedule sh cfg) bs = some vs) :
+    bs.length = proofLen sh cfg ∧ vs.length = (elemTys (verifierSchedule sh cfg)).length := by
+  rw [accepted_length]
+  generalize verifierSchedule sh cfg = evs at h
+  unfold parseProofWith at h
+  split at h
+  · next v hp =>
+    simp only [Option.some.injEq] at h
+    subst h
+    have := parseElemsWith_length _ _ _ _ hp
+    rw [sizes_totalLen] at this
+    simpa using this
+  · simp at h
+
+private theorem decodeScalar_some (bs : List Nat) (x : Nat) (h : decodeScalar bs = some x) :
+    bs = encodeScalar x := by
+  unfold decodeScalar at h
+  by_cases h1 : bs.length = 32 ∧ bs.all (· < 256) = true
+  · rw [if_pos h1] at h
+    simp only at h
+    by_cases c : leBytesToNat bs < rModulus
+    · rw [if_pos c] at h
+      have hx : leBytesToNat bs = x := Option.some.inj h
+      have hwf : C16.WF bs := fun b hb => by simpa using (List.all_eq_true.mp h1.2 b hb)
+      have := C16.natToLe_leToNat bs hwf
+      rw [h1.1, hx] at this
+      exact this.symm
+    · rw [if_neg c] at h; simp at h
+  · rw [if_neg h1] at h; simp at h
+
+/-- What was parsed re-encodes to the parsed bytes: the BLAKE2b stream (which absorbs `valBytes` of each read
+element) therefore contains the proof's own bytes, element by element. -/
+theorem parsed_reencodes (tys : List Ty) : ∀ (bs : List Nat) (vs : List Val) (r : List Nat),
+    (∀ v ∈ vs, ValOk NoOrder2 v) → parseElemsWith g1Dec tys bs = some (vs, r) → bs = encodeElems vs ++ r := by
+  induction tys with
+  | nil =>
+    intro bs vs r _ h
+    simp only [parseElemsWith, Option.some.injEq, Prod.mk.injEq] at h
+    simp [← h.1, ← h.2, encodeElems]
+  | cons ty t ih =>
+    intro bs vs r hok h
+    unfold parseElemsWith at h
+    by_cases la : bs.length < elemSize ty
+    · simp [la] at h
+    simp only [la, if_false] at h
+    split at h
+    · simp at h
+    · next v hv =>
+      simp only [Option.map_eq_some_iff, Prod.mk.injEq] at h
+      obtain ⟨⟨vs', r'⟩, hp, h1, h2⟩ := h
+      simp only at h1 h2
+      subst h2
+      subst h1
+      have hrest := ih _ vs' r' (fun w hw => hok w (by simp [hw])) hp
+      have hhead : bs.take (elemSize ty) = valBytes v := by
+        cases ty with
+        | F =>
+          simp only [decodeElemWith, Option.map_eq_some_iff] at hv
+          obtain ⟨x, hx, rfl⟩ := hv
+          exact decodeScalar_some _ x hx
+        | G =>
+          simp only [decodeElemWith, Option.map_eq_some_iff] at hv
+          obtain ⟨p, hp2, rfl⟩ := hv
+          exact (g1Dec_encode hp2 (hok (.G p) (by simp))).symm
+      calc bs = bs.take (elemSize ty) ++ bs.drop (elemSize ty) := (List.take_append_drop _ _).symm
+        _ = valBytes v ++ (encodeElems vs' ++ r') := by rw [hhead, hrest]
+        _ = encodeElems (v :: vs') ++ r' := by simp [encodeElems]
+
+/-! ## (3) A public input is also bound through its evaluation -/
+
+/-- **`instance_eval_binds`.** The verifier computes the evaluation at the challenge `x` of a plain instance column
+as `Σ_i a_i · ℓ_i(x)` with `ℓ_i(x) = ω_i·(xᴺ − 1)/(n·(x − ω_i))` (`verifier.rs: instance_evals`,
+`domain.rs: l_i_range`; executable mirror: `C02.instanceEvals`). Two columns that differ somewhere (as vectors padded
+with zeros to a common length `m`; the nodes `ω_i` distinct, non-zero, on the domain) have the same evaluation for
+at most `m − 1` values of `x` outside the domain: a changed public input that were not caught by the transcript would
+still change the identity check, except on that small set (root counting on an explicit degree-`(m−1)` polynomial). -/
+theorem instance_eval_binds {F : Type*} [Field F] (nF : F) (hn : nF ≠ 0) (N m : ℕ) (node : ℕ → F)
+    (hinj : ∀ i < m, ∀ j < m, node i = node j → i = j)
+    (hnode0 : ∀ i < m, node i ≠ 0) (hnodeN : ∀ i < m, node i ^ N = 1)
+    (a b : ℕ → F) (hab : ∃ i < m, a i ≠ b i) (S : Finset F)
+    (hS : ∀ x ∈ S, x ^ N ≠ 1 ∧ instEval nF N node m a x = instEval nF N node m b x) :
+    S.card ≤ m - 1 :=
+  instEval_agree_card_le nF hn N m node hinj hnode0 hnodeN a b hab S hS
+
+/-- List form for two columns of the same length. -/
+theorem instance_eval_binds_lists {F : Type*} [Field F] (nF : F) (hn : nF ≠ 0) (N : ℕ) (node : ℕ → F)
+    (a b : List F) (hlen : a.length = b.length) (hne : a ≠ b)
+    (hinj : ∀ i < a.length, ∀ j < a.length, node i = node j → i = j)
+    (hnode0 : ∀ i < a.length, node i ≠ 0) (hnodeN : ∀ i < a.length, node i ^ N = 1) (S : Finset F)
+    (hS : ∀ x ∈ S, x ^ N ≠ 1 ∧
+      instEval nF N node a.length (fun i => a.getD i 0) x = instEval nF N node a.length (fun i => b.getD i 0) x) :
+    S.card ≤ a.length - 1 :=
+  instEval_lists_agree_card_le nF hn N node a b hlen hne hinj hnode0 hnodeN S hS
+
+/-- **Trailing zeros are invisible to the evaluation**: appending a zero to a public-input column does not change
+its evaluation at any `x`. The edit `append zero` of the property is therefore caught ONLY by the length prefix
+absorbed into the transcript (`instances_injective`), never by the identity check. -/
+theorem instance_eval_pad_invisible {F : Type*} [Field F] (nF : F) (N : ℕ) (node : ℕ → F) (m k : ℕ) (a : ℕ → F)
+    (hz : ∀ i, m ≤ i → a i = 0) (x : F) :
+    instEval nF N node (m + k) a x = instEval nF N node m a x :=
+  instEval_pad nF N node m k a hz x
+
+/-! ## (4) What enters `transcript_repr` of the verifying key -/
+
+/-- Well-formed key parts: `k` is a byte (`assert!(k <= F::S)`, `S = 32`), counts fit `u32`, commitments have
+canonical coordinates. -/
+structure VKParts.WF (v : VKParts) : Prop where
+  k_lt : v.k < 256
+  nf_lt : v.fixed.length < 2 ^ 32
+  np_lt : v.perm.length < 2 ^ 32
+  fixed_canon : ∀ p ∈ v.fixed, CanonPt p
+  perm_canon : ∀ p ∈ v.perm, CanonPt p
+
+/-- The buffer in the order the source has TODAY (the order is regenerated; if it changes this lemma, and with it
+`vk_repr_input_injective`, has to be re-proved for the new order). -/
+theorem vkHashInput_eq (v : VKParts) :
+    vkHashInput v = Gen.vkVersion :: (v.k % 256) :: (u32le v.fixed.length ++ (rawPoints v.fixed ++
+      (u32le v.perm.length ++ (rawPoints v.perm ++ (v.domainDbg ++ v.csDbg))))) := by
+  simp [vkHashInput, Gen.vkInputOrder, concatComponents, vkComponent]
+
+/-- **`vk_repr_covers` (injectivity form).** The buffer hashed into `transcript_repr` determines `k`, every fixed
+commitment, every permutation commitment (count and content, in order) and the concatenated `Debug` descriptions
+of the domain and of the constraint system: changing any of them changes the hash input. -/
+theorem vk_repr_input_injective (a b : VKParts) (ha : a.WF) (hb : b.WF) (h : vkHashInput a = vkHashInput b) :
+    a.k = b.k ∧ a.fixed = b.fixed ∧ a.perm = b.perm ∧ a.domainDbg ++ a.csDbg = b.domainDbg ++ b.csDbg := by
+  rw [vkHashInput_eq, vkHashInput_eq] at h
+  have h1 := (List.cons.inj h).2
+  have h2 := List.cons.inj h1
+  have hk : a.k = b.k := by
+    have := h2.1
+    have := ha.k_lt
+    have := hb.k_lt
+    omega
+  have h3 := List.append_inj h2.2 (by simp [u32le, natToLeBytes_length'])
+  have hnf : a.fixed.length = b.fixed.length :=
+    natToLeBytes_inj 4 _ _ (by have := ha.nf_lt; omega) (by have := hb.nf_lt; omega) h3.1
+  have h4 := rawPoints_inj_of CanonPt encodeG1u_inj a.fixed b.fixed _ _ hnf ha.fixed_canon hb.fixed_canon h3.2
+  have h5 := List.append_inj h4.2 (by simp [u32le, natToLeBytes_length'])
+  have hnp : a.perm.length = b.perm.length :=
+    natToLeBytes_inj 4 _ _ (by have := ha.np_lt; omega) (by have := hb.np_lt; omega) h5.1
+  have h6 := rawPoints_inj_of CanonPt encodeG1u_inj a.perm b.perm _ _ hnp ha.perm_canon hb.perm_canon h5.2
+  exact ⟨hk, h4.1, h6.1, h6.2⟩
+
+example : (⟨4, [.inf], [], [1], [2]⟩ : VKParts).WF :=
+  ⟨by decide, by decide, by decide, by intro p hp; simp at hp; subst hp; trivial, by intro p hp; simp at hp⟩
+
+/-- **`vk_repr_covers` (field coverage, generated from the source).** Read from `plonk/mod.rs` and `plonk/circuit.rs`
+as they are now: (a) the only thing `hash_into` absorbs is `transcript_repr`; (b) `from_parts` writes version, `k`,
+the fixed commitments with their count, the permutation commitments with their count, then the pinned domain and the
+pinned constraint system — all four remaining fields of `VerifyingKey` besides the cached `cs_degree` and
+`transcript_repr` itself; (c) every field of `ConstraintSystem` except the three listed ones
+(`unblinded_advice_columns`: prover-side blinding only; `num_advice_queries`: a count derived from `advice_queries`;
+`general_column_annotations`: debugging names) is a member of `PinnedConstraintSystem`, and every member is printed
+by its `Debug` — `num_challenges`, `advice_column_phase`, `challenge_phase` only when `num_challenges > 0`
+(with no challenge `challenge_phase` is empty; the phase of a QUERIED advice column is still printed inside
+`advice_queries`, that of an unqueried one is not — see `checks/c03.py`). A new field the verifier would use but
+`pinned()` / `Debug` forgets makes this theorem fail. -/
+theorem vk_repr_covers :
+    Gen.vkHashInto = ["transcript_repr"] ∧
+    Gen.vkInputOrder = ["version", "k", "nfixed", "fixed", "nperm", "perm", "domain", "cs"] ∧
+    Gen.vkFields = ["domain", "fixed_commitments", "permutation", "cs", "cs_degree", "transcript_repr"] ∧
+    (∀ f ∈ Gen.csFields, f ∈ Gen.csPinnedFields ∨
+      f ∈ ["unblinded_advice_columns", "num_advice_queries", "general_column_annotations"]) ∧
+    (∀ f ∈ Gen.csPinnedFields, f ∈ Gen.csDebugAlways ∨ f ∈ Gen.csDebugWithChallenges) ∧
+    Gen.csDebugWithChallenges = ["num_challenges", "advice_column_phase", "challenge_phase"] ∧
+    "num_instance_columns" ∈ Gen.csDebugAlways ∧ "gates" ∈ Gen.csDebugAlways ∧
+    "permutation" ∈ Gen.csDebugAlways ∧ "lookups" ∈ Gen.csDebugAlways ∧ "trashcans" ∈ Gen.csDebugAlways ∧
+    Gen.domainPinnedFields = ["k", "extended_k", "omega"] := by
+  decide
+
+/-! ## (5) Generated constants the model relies on -/
+
+/-- `Blake2bState::absorb` / `squeeze` as read from the source: prefix then input; prefix then `finalize`; the two
+prefixes are different bytes (an absorbed element can never be read as a challenge request), the state is keyed
+with the domain separator and produces 64 bytes (what `Fq::from_uniform_bytes` consumes). -/
+theorem blake_framing_constants :
+    Gen.blakeAbsorbOps = ["prefix_common", "input"] ∧ Gen.blakeSqueezeOps = ["prefix_challenge", "finalize"] ∧
+    Gen.blakePrefixCommon ≠ Gen.blakePrefixChallenge ∧ Gen.blakePrefixCommon < 256 ∧ Gen.blakePrefixChallenge < 256 ∧
+    Gen.blakeDigestLen = 64 ∧ Gen.blakeKey.length = 31 ∧ Gen.vkDigestLen = 64 ∧ Gen.vkPersonal.length = 16 := by
+  decide
+
+/-- Sponge and limb parameters: rate 2 of width 3, capacity initialised to `2^64` in the unbounded mode (no input
+length can reach it), 7 limbs of 56 bits hold a base-field element with room for the identity flag below the
+scalar modulus, and the moduli agree with the ones used by the decoders of C16 and of this model. -/
+theorem poseidon_and_limb_constants :
+    Gen.poseidonRate = 2 ∧ Gen.poseidonWidth = 3 ∧ Gen.poseidonCapacityLog2 = 64 ∧
+    Gen.emLog2Base = 56 ∧ Gen.emNbLimbs = 7 ∧ Gen.fpModulus < limbBase ^ Gen.emNbLimbs ∧
+    2 * limbBase < Gen.fqModulus ∧ rModulus = Gen.fqModulus ∧ C16.fpP = Gen.fpModulus ∧ C16.fqR = Gen.fqModulus := by
+  decide
 
 end MidnightZK.C03
